@@ -81,3 +81,10 @@ Proof.
     | al_bump _ _ q Hq => or_intror (or_intror (ex_intro _ q (conj Hq eq_refl)))
     end).
 Qed.
+
+(** every ring handed to [Polygon::new] comes back closed *)
+From GB Require Import QueueCount.
+Theorem C04_rings_closed :
+  forall (N : Num) (r : FillQueue.ring N) (h : pt N) (t : list (pt N)),
+  close_ring r = h :: t -> t <> nil -> pt_eq h (last t h) = true \/ last t h = h.
+Proof. exact close_ring_closed. Qed.
